@@ -1,15 +1,18 @@
 (* Extract.v — extraction of every executable model run by the correspondence driver.
-   ExtrOcamlBasic only: bool, option, unit, list, prod, sumbool map to OCaml's; nat, positive, N, Z
-   stay the extracted inductive datatypes (no Extract Constant to OCaml integers).
+   ExtrOcamlBasic: bool, option, unit, list, prod, sumbool map to OCaml's; nat, positive, N, Z
+   stay the extracted inductive datatypes (no Extract Constant to OCaml integers).  ExtrOcamlString:
+   the instruction / window names of the generated Strassen schedules (Alg/StrassenGen.v) become
+   char lists, so that the extracted file defines no type called [string].
 
    Names.  Everything is extracted into ONE file; when two Coq modules define the same identifier
    (PLE.radix / TRSM.radix, Ops.write_bit / IO.write_bit, Ops.set_row / IO.set_row ...) the
    extraction renames the later one.  The models of Lin/ and Alg/Gauss.v come first and keep their
    names (ocaml/driver.ml uses them directly); everything added later is reached through the
    wrappers [x_...] below, whose names are unique. *)
-From Coq Require Import Extraction ExtrOcamlBasic List NArith ZArith Arith Bool.
+From Coq Require Import Extraction ExtrOcamlBasic ExtrOcamlString List NArith ZArith Arith Bool.
 From M4 Require Import Base.Bits Lin.Mat Lin.Ops Alg.Gauss.
 From M4 Require Lin.Spec Alg.PLE Alg.PLESpec Alg.TRSM Alg.Mul Alg.Solve Sys.IO.
+From M4 Require Word.WMat Alg.Gray Alg.Strassen Alg.StrassenGen Alg.M4RI Alg.EchelonPLUQ Alg.TRSMRec Alg.DJB.
 Import ListNotations.
 Extraction Blacklist List String Nat Int.
 
@@ -123,6 +126,95 @@ Definition x_kernel_rows (A : mat) : mat :=
      (map (fun f => fold_left (fun v ip => if get R (fst ip) f then N.lor v (N.shiftl 1 (N.of_nat (snd ip))) else v)
                               (combine (seq 0 r) piv) (N.shiftl 1 (N.of_nat f))) free).
 
+
+(* ---------------------------------------------------------------------------------------------
+   Tier B: the ALGORITHM-FAITHFUL models, run against the library by tools/props/tierb.py (commands
+   tb_* of ocaml/ext.ml).  Every build-dependent constant is an argument and comes from the build under
+   test (harness command [consts]):
+     blk   = __M4RI_MUL_BLOCKSIZE            (mzd.h:59)       row-block loops, TRSM recursion threshold
+     dflt  = __M4RI_STRASSEN_MUL_CUTOFF      (strassen.h:134) cutoff 0 of mzd_mul / mzd_addmul
+     pcut  = __M4RI_PLE_CUTOFF               (ple.h:40)       base case of the PLE block recursion
+     cfg   = (blk, 2 * L3, SSE2)             (triangular.c)   mzd_trtri_upper recursion / split
+   [kf A B] = the table parameter _mzd_mul_m4rm computes for k = 0 from the L2 size and the shape with
+   floating point log2/round (brilliantrussian.c:1094-1103): an OCaml closure (ext.ml [m4rm_auto_k]).
+   Results: [WMat.res] (Ok | Err Die | Err OOB | Err UB | Err Fuel); the [option]-valued models of
+   Alg/Mul.v etc. answer None for "the C call does not return normally". *)
+(* [res] as a pair for the driver (the extracted constructor names depend on the extraction order):
+   0 = Ok, 1 = Err Die, 2 = Err OOB, 3 = Err UB, 4 = Err Fuel *)
+Definition x_tb_unres {T} (r : WMat.res T) : nat * option T :=
+  match r with
+  | WMat.Ok x => (0, Some x)
+  | WMat.Err WMat.Die => (1, None) | WMat.Err WMat.OOB => (2, None)
+  | WMat.Err WMat.UB => (3, None) | WMat.Err WMat.Fuel => (4, None)
+  end.
+Definition x_tb_base (blk : nat) (kf : mat -> mat -> nat) (C A B : mat) (clear : bool) : WMat.res mat :=
+  let ka := Z.of_nat (kf A B) in
+  match Mul.mul_m4rm_core blk ka 0%Z (Mul.tables_init (Mul.choose_k ka 0%Z)) C A B clear with
+  | Some r => WMat.Ok r
+  | None => WMat.Err WMat.UB
+  end.
+Definition x_tb_mul_naive (blk : nat) (Copt : option mat) (A B : mat) : option mat := Mul.mul_naive blk Copt A B.
+Definition x_tb_addmul_naive (blk : nat) (C A B : mat) : option mat := Mul.addmul_naive blk C A B.
+Definition x_tb_mul_m4rm (blk : nat) (kf : mat -> mat -> nat) (k : nat) (Copt : option mat) (A B : mat) : option mat :=
+  let ka := Z.of_nat (kf A B) in let kz := Z.of_nat k in
+  Mul.mul_m4rm blk ka kz (Mul.tables_init (Mul.choose_k ka kz)) Copt A B.
+Definition x_tb_addmul_m4rm (blk : nat) (kf : mat -> mat -> nat) (k : nat) (C A B : mat) : option mat :=
+  let ka := Z.of_nat (kf A B) in let kz := Z.of_nat k in
+  Mul.addmul_m4rm blk ka kz (Mul.tables_init (Mul.choose_k ka kz)) C A B.
+(* strassen.c with the schedules regenerated from the source by T2 (Alg/StrassenGen.v), base = the M4RM model *)
+Definition x_tb_mul (blk : nat) (kf : mat -> mat -> nat) (dflt : nat) (cutoff : Z) (same win : bool)
+    (Copt : option mat) (A B : mat) : nat * option mat :=
+  x_tb_unres (StrassenGen.mzd_mul_gen (x_tb_base blk kf) dflt cutoff same win Copt A B).
+Definition x_tb_addmul (blk : nat) (kf : mat -> mat -> nat) (dflt : nat) (cutoff : Z) (same win : bool)
+    (Copt : option mat) (A B : mat) : nat * option mat :=
+  x_tb_unres (StrassenGen.mzd_addmul_gen (x_tb_base blk kf) dflt cutoff same win Copt A B).
+Definition x_tb_addmul_raw (blk : nat) (kf : mat -> mat -> nat) (dflt : nat) (cutoff : nat) (same win : bool)
+    (C A B : mat) : nat * option mat :=
+  x_tb_unres (StrassenGen._mzd_addmul_gen (x_tb_base blk kf) dflt cutoff same win C A B).
+(* mp.c: the section tasks in program order (one interleaving; MPProofs.mp4_spec: every interleaving agrees) *)
+Definition x_tb_mul_mp (blk : nat) (kf : mat -> mat -> nat) (dflt : nat) (cutoff : Z) (Copt : option mat) (A B : mat)
+    : nat * option mat :=
+  x_tb_unres (StrassenGen.mzd_mul_mp_gen (x_tb_base blk kf) dflt
+    (List.concat (Strassen.mp_sections (StrassenGen.gen_mp false))) cutoff Copt A B).
+Definition x_tb_addmul_mp (blk : nat) (kf : mat -> mat -> nat) (dflt : nat) (cutoff : Z) (Copt : option mat) (A B : mat)
+    : nat * option mat :=
+  x_tb_unres (StrassenGen.mzd_addmul_mp_gen (x_tb_base blk kf) dflt
+    (List.concat (Strassen.mp_sections (StrassenGen.gen_mp true))) cutoff Copt A B).
+(* djb.c: the op list (target, source, srctyp = source_source) and its application *)
+Definition x_tb_djb_compile (A : mat) : option (list (nat * nat * bool)) := DJB.djb_compile_run A.
+Definition x_tb_djb_apply (ops : list (nat * nat * bool)) (W V : mat) : option mat := DJB.djb_apply_run ops W V.
+(* mzd_make_table from arbitrary previous contents of T (rows incl. the padding of the last word) and L *)
+Definition x_tb_make_table (M : mat) (r c k : nat) (T0 : list N) (L0 : list nat) : list N * list nat :=
+  Gray.make_table M r c k T0 L0.
+(* C02: brilliantrussian.c / echelonform.c *)
+Definition x_tb_m4ri (k : nat) (full : bool) (A : mat) : option (nat * mat) := M4RI.m4ri_run k full A.
+Definition x_tb_top (k : nat) (A : mat) : option mat := M4RI.top_run k A.
+Definition x_tb_echelon_pluq (pcut : nat) (full : bool) (A : mat) : nat * mat :=
+  EchelonPLUQ.echelon_pluq
+    (fun A => PLE.pluq_rec PLE.ple_naive pcut A (seq 0 (nr A)) (seq 0 (nc A)))
+    (fun A => PLE.ple_rec PLE.ple_naive pcut A (seq 0 (nr A)) (seq 0 (nc A)))
+    TRSM.trsm_upper_left full A.
+Definition x_tb_hybrid (pcut k ktop : nat) (oracle : nat -> bool) (full : bool) (A : mat) : option (nat * mat) :=
+  M4RI.m4ri_model (x_tb_echelon_pluq pcut) k ktop oracle full A.
+(* C04 / C05: triangular.c, triangular_russian.c with the word base cases and the Four-Russians middle regime *)
+Definition x_tb_trsm_lower_left := TRSMRec.trsm_lower_left_rec_f.
+Definition x_tb_trsm_upper_left := TRSMRec.trsm_upper_left_rec_f.
+Definition x_tb_trsm_upper_right := TRSMRec.trsm_upper_right_rec_f.
+Definition x_tb_trsm_lower_right := TRSMRec.trsm_lower_right_rec_f.
+Definition x_tb_trtri := TRSMRec.trtri_upper_rec_f.
+(* mzd_inv_m4ri as the code runs it (TRSM.inv_m4ri_faithful), the echelon form by the M4RI model with the k the
+   library chooses for the n x 2*64*width work matrix *)
+Definition x_tb_inv_m4ri (k : nat) (A : mat) : option mat :=
+  let n := nr A in
+  let w := TRSM.pad64 (nc A) in
+  let AW := mconcat A (mzero n (w - nc A)) in
+  let IW := mconcat (mid n) (mzero n (w - n)) in
+  match M4RI.m4ri_run k true (mconcat AW IW) with
+  | Some (_, R) => Some (msub R 0 w n n)
+  | None => None
+  end.
+Definition x_z_of_nat := Z.of_nat.
+
 Cd "extracted".
 Extraction "m4model.ml"
   (* Mat *) mk wfb mzero mid madd mmul mtrans msub mstack mconcat get row
@@ -138,5 +230,9 @@ Extraction "m4model.ml"
   (* C01 Tier B *) x_m4rm_run x_naive_run
   (* C06/C07 *) x_solve_left_cfg x_pluq_solve_left_model x_kernel_left_cfg x_solve_left_pinned x_pad_rows x_consistent x_solve_ok x_kernel_ok x_canon_solve x_kernel_rows
   (* C18 *) x_png_case x_png_read_case x_png_header_case x_jcf_case x_str_case x_png_write
-            x_z_of_N x_z_opp x_z_abs_N x_z_ltb.
+            x_z_of_N x_z_opp x_z_abs_N x_z_ltb
+  (* Tier B *) x_tb_base x_tb_mul_naive x_tb_addmul_naive x_tb_mul_m4rm x_tb_addmul_m4rm x_tb_mul x_tb_addmul x_tb_addmul_raw
+            x_tb_mul_mp x_tb_addmul_mp x_tb_djb_compile x_tb_djb_apply x_tb_make_table x_tb_m4ri x_tb_top
+            x_tb_echelon_pluq x_tb_hybrid x_tb_trsm_lower_left x_tb_trsm_upper_left x_tb_trsm_upper_right
+            x_tb_trsm_lower_right x_tb_trtri x_tb_inv_m4ri x_z_of_nat.
 Cd "..".
